@@ -389,6 +389,11 @@ static void all_for_type(report& r, bool thorough)
                 if (k == len) break;
             }
         }
+        // weights that are tiny but not zero: such a channel is enabled (it can be selected, and the map is told so)
+        T const eps = std::numeric_limits<T>::epsilon(), mn = std::numeric_limits<T>::min();
+        for (auto const& w : std::vector<std::vector<T>>{{eps / 4, T(0.5), T(0.5)}, {T(0.5), eps / 2, T(0.5)}, {T(1), T(0), eps}, {eps * eps, T(1)}, {T(1), mn}, {mn, T(0), T(1)},
+            {T(1), eps / 2, T(0), eps / 2}})
+            part_c<T>(r, w);
     }
 }
 
